@@ -9,6 +9,7 @@ From WebP Require Import Gen.Kernels Lib.ZBits Lib.Res Spec.YUV Model.Yuv Spec.A
 From WebP Require Spec.Container Proofs.Container_bytes Proofs.Container_safety Model.Container.
 From WebP Require Model.ArithDec Proofs.C15_main Proofs.C15_ops Proofs.VP8L_kernels Proofs.VP8_kernels.
 From WebP Require Import Lib.Arr Proofs.VP8_arraykernels_aux Proofs.VP8_arraykernels.
+From WebP Require Model.LosslessLib Model.BitReader Model.Huffman Proofs.Lossless_BitReader Proofs.Lossless_HuffmanSafe.
 Import ListNotations.
 Open Scope Z_scope.
 
@@ -85,3 +86,25 @@ Proof.
   - exact (proj2 (idct4x4_refines b0 b1 b2 b3 b4 b5 b6 b7 b8 b9 b10 b11 b12 b13 b14 b15 H)).
   - exact (proj2 (iwht4x4_refines b0 b1 b2 b3 b4 b5 b6 b7 b8 b9 b10 b11 b12 b13 b14 b15 H)).
 Qed.
+
+(* ---------------- lossless decoder components (Model/BitReader.v, Model/Huffman.v; tied by the c01model correspondence) ---------------- *)
+Module LL.
+  Import Lib.Res Model.LosslessLib Model.BitReader Model.Huffman Proofs.Lossless_BitReader Proofs.Lossless_HuffmanSafe.
+
+  (* BitReader::fill on every reachable reader state: never an error, never a panic *)
+  Theorem bit_reader_fill_safe : forall s r, R s r -> exists r', fill r = Ok r'.
+  Proof. exact fill_no_panic. Qed.
+
+  (* read_bits::<T>(num) with num <= bits of T and num <= 32 (every call site): a value or BitStreamError *)
+  Theorem bit_reader_read_bits_safe : forall s r tb num, R s r -> 0 <= num <= 32 -> num <= tb ->
+    (exists v r', read_bits r tb num = Ok (v, r') /\ v = s mod 2 ^ num /\ R (Z.shiftr s num) r') \/
+    read_bits r tb num = Err EBitStreamError.
+  Proof. exact read_bits_no_panic. Qed.
+
+  (* HuffmanTree::build_implicit on every vector of code lengths 0..15 (what read_huffman_code_lengths can produce) of at most
+     5957 symbols (real alphabets: at most 280 + 2^11 = 2328): a tree or HuffmanError -- u16 histogram, u32 Kraft sum (F16
+     repaired), table and tree indices, both unwraps and the debug_assert on table entries included *)
+  Theorem huffman_build_safe : forall lens, lens_ok lens -> Z.of_nat (length lens) <= 5957 ->
+    forall p, build_implicit lens <> Panic p.
+  Proof. exact build_implicit_no_panic. Qed.
+End LL.
